@@ -1,5 +1,6 @@
 import CJ.Drv.Loop
 import CJ.Drv.Registrar
+import CJ.Drv.PrefixFile
 /-! Driver for C12: the registrar model. -/
 open CJ.Drv
 
@@ -9,4 +10,5 @@ def main : IO Unit := runDriver fun
   | "uni" :: args => Registrar.handleUni args
   | "choose" :: args => Registrar.handleChoose args
   | "cidr" :: args => OverrideCidr.handle args
+  | "pfxov" :: args => PrefixFile.handle args
   | _ => none
